@@ -56,7 +56,7 @@ def floors(tier):
     return {"cases": 20000, "no_checker_cases": 3000, "with_checker_cases": 10000, "unknown_name_cases": 1000,
             "nonstring_builtin_cases": 2000, "custom_return_cases": 300, "listed_raise_cases": 100,
             "unlisted_raise_cases": 1000, "subclass_raise_cases": 100, "format_errors_seen": 2000, "nested_cases": 3000, "stateful_sequence_calls": 3000, "reregistration_cases": 60,
-            "raise_cases_under_applicators": 1000, "metaschema_format_cases": 200, "late_registration_cases": 40}
+            "raise_cases_under_applicators": 1000, "metaschema_format_cases": 200, "late_registration_cases": 40, "passing_checks_on_unrenderable_instances": 150}
 
 
 def wrappers(d, fmt):
@@ -160,6 +160,47 @@ def custom_cases(ctx, rng, d):
             for e in errs:
                 if e.cause is not None:
                     ctx.violation("custom-return", case, "cause set although nothing was raised")
+    # a check that passes has nothing to say about the instance: it is never rendered (values whose rendering fails or
+    # is refused by the interpreter pass like any other)
+    class Unrenderable(object):
+        renders = 0
+
+        def __repr__(self):
+            Unrenderable.renders += 1
+            raise Unlisted("rendered")
+        __str__ = __repr__
+    for r in [r for r in RETURNS if r]:
+        chk = jsonschema.FormatChecker(formats=())
+        chk.checks("custom")(lambda instance, r=r: r)
+        for label, inst in (("object-that-cannot-be-rendered", Unrenderable()), ("integer-beyond-str-limit", 10 ** 5000),
+                            ("array-with-such-an-integer", [1, 10 ** 5000]), ("object-holding-unrenderable", {"a": Unrenderable()})):
+            case = {"draft": d, "custom_returns": repr(r), "instance": label, "passing_check_renders_nothing": True}
+            ctx.case([d, "ret-unrenderable", repr(r), label])
+            ctx.count("cases")
+            ctx.count("passing_checks_on_unrenderable_instances")
+            Unrenderable.renders = 0
+            try:
+                chk.check(inst, "custom")
+                conf = chk.conforms(inst, "custom")
+                errs = list(cls({"format": "custom"}, format_checker=chk).iter_errors(inst))
+            except Exception as e:
+                ctx.violation("raised", case, "the function returned %r, yet %s: %s" % (r, type(e).__name__, str(e)[:100]))
+                continue
+            if errs or not conf or Unrenderable.renders:
+                ctx.violation("custom-return", case, "function returned %r: %d errors, conforms=%r, instance rendered %d time(s)" % (r, len(errs), conf, Unrenderable.renders))
+    for name in sorted(impl.CLS[d].FORMAT_CHECKER.checkers) if getattr(impl.CLS[d], "FORMAT_CHECKER", None) else sorted(jsonschema.FormatChecker.checkers):
+        for label, inst in (("integer-beyond-str-limit", 10 ** 5000), ("array-with-such-an-integer", [10 ** 5000]), ("object-that-cannot-be-rendered", Unrenderable())):
+            case = {"draft": d, "format": name, "instance": label, "passing_check_renders_nothing": True}
+            ctx.count("passing_checks_on_unrenderable_instances")
+            Unrenderable.renders = 0
+            try:
+                jsonschema.FormatChecker().check(inst, name)
+                errs = list(cls({"format": name}, format_checker=jsonschema.FormatChecker()).iter_errors(inst))
+            except Exception as e:
+                ctx.violation("raised", case, "a value that is no string passes every shipped check, yet %s: %s" % (type(e).__name__, str(e)[:100]))
+                continue
+            if errs or Unrenderable.renders:
+                ctx.violation("builtin", case, "%d errors, rendered %d time(s)" % (len(errs), Unrenderable.renders))
     # raising
     plans = [(Listed, "listed", Listed("boom")), ((ValueError, Listed), "listed", Listed("boom")),
              ((ValueError, Listed), "listed", ValueError("boom")), (Listed, "subclass", ListedChild("boom")),
